@@ -256,6 +256,7 @@ class Runner:
         self.known_hits = {}
         self.disagreements = []  # (case, implout, modelout)
         self.timeouts = []
+        self.slow = []  # cases that needed the long budget (loaded machine); they are evaluated normally
         self.errors = []
         self.known = load_known(self.prop)
         self.pending = []  # (case, res)
@@ -275,22 +276,26 @@ class Runner:
             res = with_timeout(lambda: self.mod.run_impl(case), self.case_timeout)
         except CaseTimeout:
             hang = getattr(self.mod, "HANG_IS_VIOLATION", False)
-            if not hang:
-                self.timeouts.append(case)
-                return
-            # the watchdog is a wall-clock timer: before a hang is reported, the case is run again with a twenty-fold
-            # budget, so that a descheduled process on a loaded machine is not mistaken for a non-terminating parser
+            # the watchdog is a wall-clock timer: before anything is concluded from it, the case is run again with a
+            # twenty-fold budget, so that a descheduled process on a loaded machine is neither mistaken for a
+            # non-terminating parser (a violation) nor turns the run into "timed out" (exit 2)
             confirm = max(20.0 * self.case_timeout, 20.0)
             if getattr(self, "confirmed_hangs", 0) >= 2:
-                # two hangs are confirmed already (the run is a violation); further ones are recorded at the short budget
-                self.record_oracle(case, "timeout", f"implementation did not return within {self.case_timeout}s")
+                # two are confirmed already; further ones are recorded at the short budget
+                if hang:
+                    self.record_oracle(case, "timeout", f"implementation did not return within {self.case_timeout}s")
+                else:
+                    self.timeouts.append(case)
                 return
             try:
                 res = with_timeout(lambda: self.mod.run_impl(case), confirm)
-                self.timeouts.append(case)
+                self.slow.append(case)
             except CaseTimeout:
                 self.confirmed_hangs = getattr(self, "confirmed_hangs", 0) + 1
-                self.record_oracle(case, "timeout", f"implementation did not return within {self.case_timeout}s (confirmed with {confirm}s)")
+                if hang:
+                    self.record_oracle(case, "timeout", f"implementation did not return within {self.case_timeout}s (confirmed with {confirm}s)")
+                else:
+                    self.timeouts.append(case)
                 return
             except Exception as e:  # noqa: BLE001
                 res = {"out": f"harness-exc {type(e).__name__}", "detail": traceback.format_exc()[-800:]}
@@ -532,6 +537,7 @@ def main(argv=None):
             "traces_validated_against_impl": R.evaluations - len(R.disagreements) if driver_ok else 0,
             "known_findings_printed": sorted(R.known_hits),
             "timeouts": len(R.timeouts),
+            "slow_cases_rerun_with_long_budget": len(R.slow),
             "generated_tables": gen_info,
             "corpus_cases": len(corpus),
         },
